@@ -414,7 +414,8 @@ func prefillFanout(src sim.Source, w *world.World, set *model.Set, cfg world.Cfg
 }
 
 // entryPointsAgree checks, without any model, that Lookup and Reverse of one reader (the router, a transaction with
-// uncommitted writes, a snapshot) select the same route with the same trailing-slash flag for each probe.
+// uncommitted writes, a snapshot) select the same route with the same trailing-slash flag for each probe, and that the
+// parameters Lookup reports fit the selected pattern and the request.
 func entryPointsAgree(rd world.Reader, probes []world.Probe) string {
 	for _, p := range probes {
 		lk := world.ObsLookup(rd, p)
@@ -422,6 +423,70 @@ func entryPointsAgree(rd world.Reader, probes []world.Probe) string {
 		if lk.Tag != rv.Tag || lk.TSR != rv.TSR {
 			return fmt.Sprintf("%s %s%s: Lookup selects %s, Reverse selects %s", p.Method, p.Host, p.Path, lk, rv)
 		}
+		if lk.Tag != -1 {
+			if d := paramsFit(lk, p); d != "" {
+				return fmt.Sprintf("%s %s%s: Lookup selects %s with parameters %v: %s", p.Method, p.Host, p.Path, lk, lk.Params, d)
+			}
+		}
+	}
+	return ""
+}
+
+// paramsFit checks, without any model, that the parameters an eager lookup reports are those of the selected pattern:
+// one per wildcard, same names in order, and - substituted into the pattern - they spell the request (its path with
+// the final slash toggled when the answer is a trailing-slash one; hostnames compare without letter case).
+func paramsFit(o world.RouteObs, p world.Probe) string {
+	var sb strings.Builder
+	pat, k := o.Pattern, 0
+	for i := 0; i < len(pat); {
+		j := i
+		if pat[i] == '*' && i+1 < len(pat) && pat[i+1] == '{' {
+			j = i + 1
+		}
+		if pat[j] != '{' {
+			sb.WriteByte(pat[i])
+			i++
+			continue
+		}
+		end := strings.IndexByte(pat[j:], '}')
+		if end < 0 {
+			return "" // not a pattern this parser understands
+		}
+		name := pat[j+1 : j+end]
+		if k >= len(o.Params) {
+			return fmt.Sprintf("wildcard {%s} has no parameter", name)
+		}
+		if o.Params[k].Key != name {
+			return fmt.Sprintf("parameter %d is named %q, the pattern's wildcard is {%s}", k, o.Params[k].Key, name)
+		}
+		sb.WriteString(o.Params[k].Value)
+		k++
+		i = j + end + 1
+	}
+	if k != len(o.Params) {
+		return fmt.Sprintf("%d parameters for %d wildcards", len(o.Params), k)
+	}
+	if strings.ContainsAny(p.Host, ":") || strings.HasSuffix(p.Host, ".") {
+		return "" // port and root dot are stripped before matching: C09's business
+	}
+	path := p.Path
+	if o.TSR {
+		if strings.HasSuffix(path, "/") {
+			path = path[:len(path)-1]
+		} else {
+			path += "/"
+		}
+	}
+	got := sb.String()
+	if strings.HasPrefix(o.Pattern, "/") {
+		if got != path {
+			return fmt.Sprintf("substituted into the pattern they spell %q, the request path is %q", got, path)
+		}
+		return ""
+	}
+	i := strings.IndexByte(got, '/')
+	if i < 0 || !strings.EqualFold(got[:i], p.Host) || got[i:] != path {
+		return fmt.Sprintf("substituted into the pattern they spell %q, the request is %q", got, p.Host+path)
 	}
 	return ""
 }
